@@ -36,7 +36,7 @@ Qed.
 (* entries with another key survive *)
 Lemma sset_keeps x l y : In y l -> keq x y = false -> In y (sset lt keq x l).
 Proof.
-  induction l as [|z t IH]; cbn [sset In]; [tauto|]. intros [<-|H] Hk.
+  induction l as [|z t IH]; cbn [sset In]; [intros []|]. intros [<-|H] Hk.
   - rewrite Hk. destruct (lt x z); [right; left; reflexivity | left; reflexivity].
   - destruct (keq x z); [right; exact H|]. destruct (lt x z); [right; right; exact H | right; apply IH; assumption].
 Qed.
@@ -98,7 +98,7 @@ Definition lex3 (a1 a2 a3 b1 b2 b3 : Z) : bool :=
 Lemma lex2_true a1 a2 b1 b2 : lex2 a1 a2 b1 b2 = true <-> (a1 < b1 \/ (a1 = b1 /\ a2 < b2)).
 Proof. unfold lex2. rewrite orb_true_iff, andb_true_iff, !Z.ltb_lt, Z.eqb_eq. tauto. Qed.
 Lemma lex3_true a1 a2 a3 b1 b2 b3 : lex3 a1 a2 a3 b1 b2 b3 = true <-> (a1 < b1 \/ (a1 = b1 /\ (a2 < b2 \/ (a2 = b2 /\ a3 < b3)))).
-Proof. unfold lex3. rewrite !orb_true_iff, !andb_true_iff, !Z.ltb_lt, !Z.eqb_eq. tauto. Qed.
+Proof. unfold lex3. rewrite !orb_true_iff, !andb_true_iff, !orb_true_iff, !andb_true_iff, !Z.ltb_lt, !Z.eqb_eq. tauto. Qed.
 
 Lemma bool_false_iff (b : bool) (P : Prop) : (b = true <-> P) -> (b = false <-> ~ P).
 Proof.
@@ -291,6 +291,7 @@ Proof.
   - cbn. induction (o_queries st) as [|y u IHu]; cbn; [reflexivity | f_equal; exact IHu].
   - rewrite IH. unfold agg_step, closing. destruct (m_has_reports m && (m_expiration m <=? h)) eqn:E; cbn [andb orb].
     + cbn [aggregate_round o_queries]. unfold meta_remove. rewrite filter_filter_and.
-      apply filter_ext. intros y. unfold meta_key_eq. rewrite negb_orb. apply andb_comm.
+      apply filter_ext. intros y. unfold meta_key_eq. rewrite negb_orb.
+      rewrite (Z.eqb_sym (m_qid y)), (Z.eqb_sym (m_id y)). reflexivity.
     + reflexivity.
 Qed.
